@@ -132,6 +132,31 @@ SEEDS.update({
                   needs="a sampler whose generator has advanced (an earlier run) before being handed to the controller",
                   caught_by="samplers with an earlier run handed to the controller, compared with stand-alone runs of deep copies"),})
 
+# third round: a mechanism, function and clause different from both earlier seeds was requested
+SEEDS.update({
+    "C01_3": dict(change="animated leapfrog of HMC_visual uses self.stepsize instead of the randomised local step size in its closing half drift",
+                  needs="HMC_visual, animate_proposals=True with an open figure, randomize_stepsize=True",
+                  caught_by="static schedule translator (fails closed on the unknown coefficient) and co-execution of the visual samplers; no failing input produced"),
+    "C02_3": dict(change="initial model no longer cast to float64 + RWMH writes accepted proposals into the existing array",
+                  needs="an integer-typed initial model",
+                  caught_by="integer starting models in the sampler runs (added shortly before this seed arrived): accept-state, sampling-raised"),
+    "C03_3": dict(change="4-stage integrator scales the derived coefficient a3 after a1, a2 were already multiplied by the step size",
+                  needs="integrator 4s and a local step size other than 1",
+                  caught_by="scaling-equivalence runs (step f*eps with M vs eps with M/f^2) over all integrators"),
+    "C04_3": dict(change="Full mass matrix keeps cho_factor's unused triangle (np.tril removed); generate_momentum multiplies by the whole array",
+                  needs="a non-diagonal Full mass matrix given with a dtype that cho_factor converts (integer, longdouble)",
+                  caught_by="momentum-law hypothesis check on the real masses of the composition tie and integer-dtype Full matrices in C03/C04 (added after this seed was first missed)"),
+    "C05_3": dict(change="Uniform returns one shared zero-gradient array; TransformToLogSpace.gradient modifies the wrapped gradient in place",
+                  needs="TransformToLogSpace(Uniform) with gradient() evaluated at least twice",
+                  caught_by="deterministic wrapper x leaf coverage (added after this seed was first missed) with the in-place / repeated evaluation check"),
+    "C06_3": dict(change="base corrector computes the mirror image in place in the dtype of the bounds array",
+                  needs="bounds with an integer dtype and an HMC trajectory crossing a wall",
+                  caught_by="integer-dtype bounds (added after this seed was first missed): corrector-raised"),
+    "C07_3": dict(change="write buffer of Samples capped at 1024 columns per flush while a flush is triggered by the 1025th column (newest column dropped)",
+                  needs="more than 2057 stored columns written with flushes less than a second apart",
+                  caught_by="one long quickly written chain per run in C07 and C10 (added after this seed was first missed)"),
+})
+
 
 def main():
     ids = sys.argv[1:] or sorted(SEEDS)
